@@ -372,6 +372,86 @@ def query_correlated(q, cutoff=0):
     return found
 
 
+def lateral_nested_correlation(q):
+    """structural class: some LATERAL subquery S contains a nested query (a subquery expression or a further
+    LATERAL) that references a column from outside S (the lateral's left row or beyond)"""
+    found = False
+
+    def walk_any(x, c, nested):
+        nonlocal found
+        if not (isinstance(x, list) and x):
+            return
+        h = x[0]
+        if isinstance(h, str) and h in EXPR_HEADS:
+            if h == "col":
+                if nested and int(x[1]) >= c:
+                    found = True
+            elif h == "exists":
+                walk_q(x[2], c, True)
+            elif h == "insub":
+                walk_any(x[2], c, nested); walk_q(x[3], c, True)
+            elif h == "quant":
+                walk_any(x[3], c, nested); walk_q(x[4], c, True)
+            elif h == "scalar":
+                walk_q(x[1], c, True)
+            elif h == "case":
+                for cnd, t in x[1]:
+                    walk_any(cnd, c, nested); walk_any(t, c, nested)
+                walk_any(x[2], c, nested)
+            elif h == "inlist":
+                walk_any(x[2], c, nested)
+                for y in x[3]:
+                    walk_any(y, c, nested)
+            elif h == "const":
+                return
+            else:
+                for y in x[1:]:
+                    walk_any(y, c, nested)
+        else:
+            for y in x:
+                walk_any(y, c, nested)
+
+    def walk_q(q, c, nested):
+        h = q[0]
+        if h == "select":
+            f, wh, grp, hav, sel, dis = q[1:]
+            if f != "-":
+                walk_f(f, c, nested)
+            for e in ([wh] if wh != "-" else []) + ([hav] if hav != "-" else []) + sel:
+                walk_any(e, c + 1, nested)
+            if grp != "-":
+                for e in grp[0]:
+                    walk_any(e, c + 1, nested)
+                for a in grp[1]:
+                    walk_any(a[2], c + 1, nested)
+        elif h == "union":
+            walk_q(q[2], c, nested); walk_q(q[3], c, nested)
+        elif h == "order":
+            walk_q(q[1], c, nested)
+
+    def walk_f(f, c, nested):
+        if f[0] == "fq":
+            walk_q(f[1], c, nested)
+        elif f[0] == "join":
+            walk_f(f[2], c, nested); walk_f(f[3], c, nested)
+            if f[4] != "-":
+                walk_any(f[4], c + 1, nested)
+        elif f[0] == "lateral":
+            walk_f(f[2], c, nested); walk_q(f[3], c + 1, True)
+            if f[4] != "-":
+                walk_any(f[4], c + 1, nested)
+
+    def scan(x):
+        """find every lateral node anywhere and test its subquery"""
+        if isinstance(x, list) and x:
+            if x[0] == "lateral" and len(x) >= 6:
+                walk_q(x[3], 0, False)
+            for y in x:
+                scan(y)
+    scan(q)
+    return found
+
+
 def count_null(e):
     """engine: a CORRELATED scalar subquery that is a global aggregate is decorrelated with a LEFT join on
     the grouped aggregate, so an outer row without partner rows gets NULL for every aggregate, count included.
